@@ -838,6 +838,27 @@ func (env *rEnv) call(n *rNode) Value {
 	case "byteat":
 		// byteat(b, i): the i-th byte of the byte slice b
 		return sym(App(SInt, "b.at", argT(0), argT(1)))
+	case "carried":
+		// carried(): the one loop-carried variable of type `any` of the loop under this clause
+		if env.useHead && env.headVars != nil {
+			if v, ok := env.headVars["carried$"]; ok {
+				return v
+			}
+		} else if v, ok := env.vars["carried$"]; ok {
+			return v
+		}
+		return env.fail("carried(): the loop does not carry exactly one variable of type any")
+	case "itercount":
+		// itercount(): iterations completed before the current one (value of the loop's unit-step counter at the head
+		// of this iteration, minus its initial value)
+		if env.headVars == nil {
+			return env.fail("itercount() outside a loop body clause")
+		}
+		v, ok := env.headVars["itercount$"]
+		if !ok {
+			return env.fail("itercount(): the loop does not have exactly one unit-step counter")
+		}
+		return v
 	case "nilmap":
 		// nilmap(x): the Go map x denotes (a map value or an interface holding one) is a nil map; an interface holding a
 		// nil map is itself not nil, so `x != nil` does not say this
